@@ -61,17 +61,22 @@ def Stream.rewind (s : Stream) : Stream := { s with pos := 0 }
 inductive Source where
   | buffer (b : Bytes)
   | stream (s : Stream)
+  /-- a stream whose `read` returns `Err` (other than `Interrupted`) once `okReads` calls have succeeded, and on every
+      later call (source fault; `seek` keeps working) -/
+  | faulty (s : Stream) (okReads : Nat)
 deriving Repr
 
 /-- `ObjectDataSource::len`: buffer length / `seek(End(0))` -/
 def Source.len : Source → Nat
   | .buffer b => b.length
   | .stream s => s.bytes.length
+  | .faulty s _ => s.bytes.length
 
 /-- the bytes of the object, however supplied -/
 def Source.bytes : Source → Bytes
   | .buffer b => b
   | .stream s => s.bytes
+  | .faulty s _ => s.bytes
 
 /-- what the application hands to `ObjectDesc::create_from_buffer / create_from_file / create_from_stream` -/
 inductive Supplied where
@@ -140,6 +145,7 @@ def Enc.new (P : Params) (src : Source) (closable : Bool) : Rs Enc :=
   let src' := match src with
     | .buffer b => Source.buffer b
     | .stream s => Source.stream s.rewind
+    | .faulty s k => Source.faulty s.rewind k
   match Partition.blockPartitioning P.b P.len P.e with
   | .error w => .error w
   | .ok (aL, aS, nL, nB) =>
@@ -181,6 +187,31 @@ def readBlockStream (P : Params) (s : Enc) (st : Stream) : Option Enc :=
     | some blk =>
       some { s with src := .stream st', blocks := s.blocks ++ [blk], sbn := s.sbn + 1, off := s.off + buf.length }
 
+/-- the fill loop on a faulty stream: `none` = `read` returned `Err` (the bytes already read for this block are dropped) -/
+def fillE : Nat → Stream → Nat → Nat → Bytes → Option (Bytes × Stream × Nat)
+  | 0, st, k, _, acc => some (acc, st, k)
+  | fuel + 1, st, k, want, acc =>
+    if want = 0 then some (acc, st, k) else
+    match k with
+    | 0 => none
+    | k + 1 =>
+      let (got, st') := st.read want
+      if got.length = 0 then some (acc, st', k) else fillE fuel st' k (want - got.length) (acc ++ got)
+
+/-- `read_block_stream` on a faulty stream: `Err(e) => { log::error!(..); self.read_end = true; return Ok(()) }` -/
+def readBlockFaulty (P : Params) (s : Enc) (st : Stream) (k : Nat) : Option Enc :=
+  let want := s.blockLength * P.e
+  match fillE want st k want [] with
+  | none => some { s with src := .faulty st 0, readEnd := true }
+  | some (buf, st', k') =>
+    if buf.length = 0 then
+      some { s with src := .faulty st' k', readEnd := true }
+    else
+      match Block.new P s.sbn buf with
+      | none => none
+      | some blk =>
+        some { s with src := .faulty st' k', blocks := s.blocks ++ [blk], sbn := s.sbn + 1, off := s.off + buf.length }
+
 /-- `read_block` + the `Err(_) => self.read_end = true` arm of `read_window`.
     (When block creation fails after a stream read, the bytes read stay consumed; nothing observable
     depends on it because `read_end` stops all further reading.) -/
@@ -188,6 +219,7 @@ def readBlock (P : Params) (s : Enc) : Enc :=
   let r := match s.src with
     | .buffer c => readBlockBuffer P s c
     | .stream st => readBlockStream P s st
+    | .faulty st k => readBlockFaulty P s st k
   match r with
   | some s' => s'
   | none => { s with readEnd := true }
@@ -207,7 +239,7 @@ def readWindow (P : Params) (s : Enc) : Enc := readWindowAux P P.window s
 inductive Out where
   | pkt (p : Pkt)
   | none
-  /-- `debug_assert!(transfer_length == 0)` (dev profile, the profile of `cargo test`) -/
+  /-- an index panic (`self.blocks[i]`; unreachable) - before the repair of sched-7 also `debug_assert!(transfer_length == 0)` -/
   | panic
   /-- the loop ran out of fuel: would spin forever -/
   | hang
@@ -229,7 +261,10 @@ def readLoop (P : Params) (force : Bool) : Nat → Enc → Out × Enc
     let s := readWindow P s
     if s.blocks.isEmpty then
       if s.nbPkt = 0 then
-        if P.len ≠ 0 then (.panic, { s with nbPkt := 1 })
+        -- repaired (sched-7): the empty-object packet only for an EMPTY object; when no block of a non-empty object
+        -- could be read (stream read error) or encoded, nothing is sent (before: `debug_assert!(transfer_length == 0)`,
+        -- in release the empty packet with B for a non-empty object)
+        if P.len ≠ 0 then (.none, s)
         else (.pkt emptyPkt, { s with nbPkt := 1 })
       else (.none, s)
     else
@@ -332,6 +367,8 @@ def Session.release (x : Session) (e' : Enc) : Session :=
 def Session.runLoop : Nat → Session → Out × Session
   | 0, x => (.hang, x)
   | fuel + 1, x =>
+    -- `new_encoder`: the encoder is created by this iteration
+    let fresh := x.enc.isNone
     match x.getNext with
     | .error _ => (.panic, x)
     | .ok x =>
@@ -342,7 +379,10 @@ def Session.runLoop : Nat → Session → Out × Session
       | (.pkt p, e') => (.pkt p, { x with enc := some e' })
       | (.panic, e') => (.panic, { x with enc := some e' })
       | (.hang, e') => (.hang, { x with enc := some e' })
-      | (.none, e') => Session.runLoop fuel (x.release e')
+      | (.none, e') =>
+        -- /repo a00f689: a transfer that ends without any packet (its source fails at the first read) gives the hand
+        -- back instead of running through all the remaining transfers in this call
+        if fresh then (.none, x.release e') else Session.runLoop fuel (x.release e')
 
 def Session.read (x : Session) : Out × Session := Session.runLoop 4 x
 
